@@ -1357,11 +1357,39 @@ def _vec_reduce_sum(v):
     return r
 
 
+# leading parameters of the pandas / numpy methods the model reads positionally: a call that names them (`s.isin(values=...)`, `t.loc...`, `a.searchsorted(v=..)`) is
+# normalised to the positional form first (keywords that continue the positional arguments, in this order)
+LIB_SIGS = {
+    # (only methods whose model reads these arguments by position; the ones that look a keyword up themselves -- sort_values(by=), fillna(value=), itertuples(index=),
+    #  rolling(window=), groupby(by=), reindex(index= / columns=) -- are left alone)
+    "Vec": {"isin": ["values"], "take": ["indices"], "where": ["cond", "other"], "mask": ["cond", "other"], "replace": ["to_replace", "value"], "astype": ["dtype"],
+            "map": ["arg"], "apply": ["func"], "between": ["left", "right"], "clip": ["lower", "upper"], "round": ["decimals"], "head": ["n"], "tail": ["n"],
+            "lt": ["other"], "le": ["other"], "gt": ["other"], "ge": ["other"], "eq": ["other"], "ne": ["other"], "equals": ["other"], "repeat": ["repeats"],
+            "add": ["other"], "sub": ["other"], "mul": ["other"], "div": ["other"], "truediv": ["other"], "floordiv": ["other"], "mod": ["other"], "pow": ["other"]},
+    "DF": {"isin": ["values"], "take": ["indices"], "head": ["n"], "tail": ["n"], "astype": ["dtype"], "round": ["decimals"]},
+}
+
+
+def _lib_bind(kind, name, args, kw):
+    names = LIB_SIGS.get(kind, {}).get(name)
+    if not names or not kw:
+        return args, kw
+    args, kw = list(args), dict(kw)
+    for nm in names[len(args):]:
+        if nm in kw:
+            args.append(kw.pop(nm))
+        else:
+            break
+    return args, kw
+
+
 def value_method(it, obj, name, args, kw):
     ai = _ai()
     if isinstance(obj, Vec):
+        args, kw = _lib_bind("Vec", name, args, kw)
         return vec_method(it, obj, name, args, kw)
     if isinstance(obj, DF):
+        args, kw = _lib_bind("DF", name, args, kw)
         return df_method(it, obj, name, args, kw)
     if isinstance(obj, dict):
         if name == "get":
@@ -1552,7 +1580,11 @@ def vec_method(it, obj, name, args, kw):
     if name == "reset_index" and kw.get("drop") is True:
         return Vec(obj.v, fresh=True)          # a new 0..n-1 index
     if name in ("copy", "to_numpy", "tolist", "reset_index", "ravel", "flatten", "squeeze", "to_list"):
-        return Vec(obj.v) if name != "tolist" else list(obj.v)
+        if name == "tolist":
+            return list(obj.v)
+        r = Vec(obj.v)
+        r.exact = obj.exact                                  # the same elements, literally, in a new container
+        return r
     if name == "reshape" and not (obj.aligned or obj.fresh) and len(args[0] if len(args) == 1 and isinstance(args[0], (tuple, list)) else args) == 2:
         # a table of rows: np.array(<list of equal-length tuples>).reshape(n, m) / a flat literal array cut into rows of m
         n_, m_ = args[0] if len(args) == 1 and isinstance(args[0], (tuple, list)) else args
@@ -1761,6 +1793,10 @@ def vec_method(it, obj, name, args, kw):
         if obj.labels is not None:
             r.labels = list(obj.labels[sl])
         return r
+    if name in ("add", "sub", "mul", "div", "truediv", "floordiv", "mod", "pow", "radd", "rsub", "rmul", "rtruediv", "rdiv") and len(args) == 1 and not kw:
+        # the arithmetic methods of a Series / array are its operators (s.sub(x) is s - x, s.rsub(x) is x - s)
+        opn = {"add": ast.Add, "sub": ast.Sub, "mul": ast.Mult, "div": ast.Div, "truediv": ast.Div, "floordiv": ast.FloorDiv, "mod": ast.Mod, "pow": ast.Pow}[name.lstrip("r") if name.startswith("r") and name != "round" else name]()
+        return ai.binop(opn, args[0], obj) if name.startswith("r") else ai.binop(opn, obj, args[0])
     if name in ("ne", "eq", "lt", "le", "gt", "ge") and len(args) == 1 and not kw:
         # element-wise comparison methods: a missing value compares unequal to everything (itself included), like the operators
         opn = {"ne": ast.NotEq, "eq": ast.Eq, "lt": ast.Lt, "le": ast.LtE, "gt": ast.Gt, "ge": ast.GtE}[name]()
@@ -1802,11 +1838,26 @@ def vec_method(it, obj, name, args, kw):
                 r = Vec([obj.v[i] for i in order], aligned="any")
                 r.exact, r.labels = True, [labels[i] for i in order]
                 return r
+    if name == "argsort" and not args and obj.exact and obj.v and not (obj.aligned or obj.fresh) and kw.get("kind") in ("stable", "mergesort"):
+        # ndarray.argsort with a stable kind on literal, mutually comparable values: the positions in sorted order (ties in input order)
+        lv = _lits(obj.v) if not all(isinstance(x, str) for x in obj.v) else list(obj.v)
+        if lv is not None and set(kw) <= {"kind"}:
+            r = Vec(sorted(range(len(lv)), key=lambda i: lv[i]))
+            r.exact = True
+            return r
     if name in ("cumsum", "cummax", "cummin", "diff", "shift", "rolling", "sort_values", "argsort", "rank", "searchsorted",
                 "groupby", "ewm", "expanding", "cumprod", "sample", "nlargest", "nsmallest", "corr"):
         return Opaque(f"mixed:{name}")
     if name == "take" and args and hasattr(args[0], "as_mask"):
         return _maskload(obj, args[0].as_mask())
+    if name == "take" and len(args) == 1 and not kw and isinstance(args[0], (Vec, list, tuple)) and obj.exact:
+        pos = list(args[0].v) if isinstance(args[0], Vec) else list(args[0])
+        if all(isinstance(i, int) and not isinstance(i, bool) and -len(obj.v) <= i < len(obj.v) for i in pos):
+            r = Vec([obj.v[i] for i in pos], aligned=("any" if (obj.aligned or obj.fresh) else False))
+            r.exact = True
+            if obj.labels is not None and len(obj.labels) == len(obj.v):
+                r.labels = [obj.labels[i] for i in pos]
+            return r
     if name == "equals":
         o = args[0]
         return isinstance(o, Vec) and len(o.v) == len(obj.v) and all(same(a, b) for a, b in zip(obj.v, o.v))
@@ -2140,6 +2191,46 @@ def ext_call(it, dotted, args, kw):
         r = Vec([i for i, x in enumerate(args[0].v) if x])
         r.exact = True
         return r
+    _NP_BIN = {"np.greater": ast.Gt, "np.greater_equal": ast.GtE, "np.less": ast.Lt, "np.less_equal": ast.LtE, "np.equal": ast.Eq, "np.not_equal": ast.NotEq,
+               "np.add": ast.Add, "np.subtract": ast.Sub, "np.multiply": ast.Mult, "np.divide": ast.Div, "np.true_divide": ast.Div, "np.mod": ast.Mod, "np.remainder": ast.Mod,
+               "np.floor_divide": ast.FloorDiv, "np.power": ast.Pow, "np.logical_and": ast.BitAnd, "np.logical_or": ast.BitOr, "np.bitwise_and": ast.BitAnd, "np.bitwise_or": ast.BitOr}
+    if name in _NP_BIN and len(args) == 2 and not kw:
+        # the binary ufuncs are the operators, element by element
+        opn = _NP_BIN[name]()
+        a_, b_ = (x.view() if isinstance(x, Vec) and (x.aligned or x.fresh) else x for x in args)
+        if isinstance(opn, (ast.Gt, ast.GtE, ast.Lt, ast.LtE, ast.Eq, ast.NotEq)):
+            return _ai().compare(opn, a_, b_)
+        return _ai().binop(opn, a_, b_)
+    if name == "np.fromiter" and args:
+        vals = list(it.iterate(args[0]))
+        cnt = kw.get("count", args[2] if len(args) > 2 else -1)
+        if isinstance(cnt, NRows):
+            cnt = -1
+        if isinstance(cnt, int) and not isinstance(cnt, bool) and cnt >= 0:
+            if len(vals) < cnt:
+                raise Raised("ValueError", "iterator too short")
+            vals = vals[:cnt]
+        r = Vec(vals)
+        return r
+    if name == "np.lexsort" and len(args) == 1 and not kw:
+        keys = [k_ for k_ in it.iterate(args[0])]
+        cols_ = []
+        for k_ in keys:
+            if not isinstance(k_, Vec) or not k_.exact:
+                raise Undecided(f"np.lexsort of a column that is not literal: {type(k_).__name__} exact={getattr(k_, 'exact', None)} {repr(k_)[:60]}")
+            lv = list(k_.v) if all(isinstance(x, str) for x in k_.v) else _lits(k_.v)
+            if lv is None:
+                raise Undecided("np.lexsort of a column that is not literal")
+            cols_.append(lv)
+        if cols_ and len({len(c_) for c_ in cols_}) == 1:
+            n_ = len(cols_[0])
+            try:
+                order = sorted(range(n_), key=lambda i: tuple(c_[i] for c_ in reversed(cols_)))        # the LAST key is the primary one; stable
+            except TypeError:
+                raise Undecided("np.lexsort of mixed-type keys")
+            r = Vec(order)
+            r.exact = True
+            return r
     if name == "np.count_nonzero" and len(args) == 1 and not kw and isinstance(args[0], Vec):
         if all(isinstance(x, bool) for x in args[0].v):
             # the number of rows a literal mask selects (exact table), or -- one slot per row class -- zero when no class is selected, else some positive count
